@@ -614,6 +614,24 @@ Section Blocks.
 
   Definition wf_prog (p : block) : bool := wf_block None p && nodupb (loop_ids p).
 
+  (* time labels never go backwards ([t] = running statement time before the statement) *)
+  Fixpoint mono_stmt (s : stmt) (t : Z) {struct s} : bool :=
+    match s with
+    | SAtom a => t <=? atom_time a t
+    | SBreak _ | SCondBreak _ _ _ => true
+    | SBlock b => mono_block b t
+    | SCond _ _ b rest => mono_block b t && mono_chain rest (block_after b t)
+    | SLoop _ b | SWhile _ _ b | SDoWhile _ _ b | STimes _ _ _ b => mono_block b t
+    end
+  with mono_block (b : block) (t : Z) {struct b} : bool :=
+    match b with BNil => true | BCons s b' => mono_stmt s t && mono_block b' (stmt_after s t) end
+  with mono_chain (c : chain) (t : Z) {struct c} : bool :=
+    match c with
+    | CEnd => true
+    | CElse b => mono_block b t
+    | CElif _ _ b rest => mono_block b t && mono_chain rest (block_after b t)
+    end.
+
 End Blocks.
 
 Arguments ANop {L}. Arguments ATime {L} l. Arguments ASimple {L} x. Arguments ADecl {L} ds x.
